@@ -23,6 +23,8 @@ func main() {
 		os.Exit(checkCmd(os.Args[2:]))
 	case "replay":
 		os.Exit(replayCmd(os.Args[2:]))
+	case "native":
+		os.Exit(nativeCmd(os.Args[2:]))
 	default:
 		fmt.Fprintln(os.Stderr, "unknown command", os.Args[1])
 		os.Exit(2)
@@ -146,4 +148,45 @@ func replayCmd(args []string) int {
 		return 0
 	}
 	return 1
+}
+
+// nativeCmd runs one harness natively on a given input vector and shows what it printed
+// (vrt.Dump output): a debugging aid for triaging counterexamples.
+func nativeCmd(args []string) int {
+	fs := flag.NewFlagSet("native", flag.ExitOnError)
+	repo := fs.String("repo", "/repo", "repository")
+	root := fs.String("root", "/verif", "verif root")
+	pkg := fs.String("pkg", "", "harness package (./proto/generic)")
+	entry := fs.String("entry", "", "harness function")
+	params := fs.String("params", "", "K=V,...")
+	vec := fs.String("vec", "", "input vector: v,v,... (missing values are 0)")
+	portable := fs.Bool("portable", false, "portable (non-amd64) configuration")
+	fs.Parse(args)
+	c := ReplayCase{Harness: *entry, Pkg: *pkg, Params: map[string]int64{}, TimeoutMs: 60000}
+	for _, kv := range strings.Split(*params, ",") {
+		if kv == "" {
+			continue
+		}
+		var k string
+		var v int64
+		if i := strings.IndexByte(kv, '='); i > 0 {
+			k = kv[:i]
+			fmt.Sscan(kv[i+1:], &v)
+			c.Params[k] = v
+		}
+	}
+	for _, f := range strings.FieldsFunc(*vec, func(r rune) bool { return r == ',' || r == ' ' || r == '[' || r == ']' }) {
+		var v uint64
+		fmt.Sscan(f, &v)
+		c.Vec = append(c.Vec, v)
+	}
+	rp := &Replayer{Repo: *repo, HarnessDir: *root + "/harness", Portable: *portable, Pkgs: []string{*pkg}, Echo: true}
+	defer rp.Cleanup()
+	res, err := rp.Run([]ReplayCase{c})
+	if err != nil {
+		fatal(err)
+	}
+	r := res[0]
+	fmt.Printf("native outcome=%s failures=%v reached=%v panic=%q\n", r.Outcome, r.Failures, r.Reached, firstLine(r.Panic))
+	return 0
 }
